@@ -48,6 +48,32 @@ class ChopSpy:
     def __exit__(self, *a):
         for m, f in self.saved: m.rank_chop = f
 
+class OracleSpy:
+    """QR and SVD are oracles of the model (trusted base): this records when one of them, called through the given modules, returns non-finite
+    factors for a FINITE input (seen with torch.linalg.qr on single-precision rank-deficient matrices with entries near 1e-20) - a failure of the
+    numerical library under the code, not of the code; a call that then raises is counted, not reported"""
+    def __init__(self, modules):
+        self.mods, self.failed, self.saved = modules, [], []
+    def __enter__(self):
+        torch, _ = _imp()
+        def wrap(f, name):
+            def g(M, *a, **k):
+                out = f(M, *a, **k)
+                try:
+                    if bool(torch.isfinite(M).all()) and not all(bool(torch.isfinite(o).all()) for o in out if torch.is_tensor(o)):
+                        self.failed.append((name, tuple(M.shape), str(M.dtype)))
+                except Exception:
+                    pass
+                return out
+            return g
+        for m in self.mods:
+            for nm in ("QR", "SVD"):
+                if hasattr(m, nm):
+                    self.saved.append((m, nm, getattr(m, nm))); setattr(m, nm, wrap(getattr(m, nm), nm))
+        return self
+    def __exit__(self, *a):
+        for m, nm, f in self.saved: setattr(m, nm, f)
+
 def intact(snaps, objs):
     out = []
     for nm, (s, o) in zip(snaps.keys(), zip(snaps.values(), objs)):
